@@ -204,8 +204,25 @@ def handleEvents (recv : String) (toks : List String) : String :=
       " ".intercalate (r.1.map showEvt) ++ " | " ++ " ".intercalate (spec.map showEvt) ++ " | " ++
         toString o.2 ++ " " ++ toString ch
 
+def showVal : Val → String
+  | .flat => "flat"
+  | .self => "self"
+  | .tree _ => "tree"
+
+def showDict (d : List Field) : String := " ".intercalate (d.map (fun f => f.key.name ++ "=" ++ showVal f.val))
+
+/-- `state <new|old> <linked> <haskids> <mostrecent> <pre codes> <container codes> <event>*`: the document object's
+    `__dict__` after parsing the markup these events stand for (then linked or not), and what `__getstate__` makes of it -/
+def handleState (variant linked haskids mostrecent prel scl : String) (toks : List String) : String :=
+  let cfg := if variant == "old" then unrepaired else repaired
+  let nm : Names := { isPre := (natList "," prel).contains, isSc := (natList "," scl).contains }
+  let ps := feedState nm 1000000000 (toksToEvs toks [])
+  let d := soupDict ps (haskids == "1") (linked == "1") (mostrecent == "1")
+  showDict d ++ " | " ++ showDict (getstateImpl cfg d)
+
 def handle : List String → String
   | "events" :: recv :: toks => handleEvents recv toks
+  | "state" :: variant :: linked :: haskids :: mostrecent :: prel :: scl :: toks => handleState variant linked haskids mostrecent prel scl toks
   | "depth" :: variant :: rootkx :: midname :: prel :: scl :: nops :: rest =>
     let cfg := if variant == "old" then unrepaired else repaired
     let k := nops.toNat!
